@@ -1,22 +1,37 @@
-from checks import hC12 as h
-from crosshair.core import deep_realize, realize
+from checks import hC17 as h
 from crosshair.tracers import NoTracing
 CFG = {}
 def prepare(cfg):
-    h.CFG.clear(); h.CFG.update({'template': 'macro-chain'}); h.prepare(h.CFG)
-def d1(a: int) -> bool:
+    h.CFG.clear(); h.CFG.update({'has_enc': True, 'later': False, 'q': '"'}); h.prepare({})
+def d1(s1: int, s3: int, n0: int, n1: int) -> bool:
     """
-    pre: a == 0
+    pre: s1 in (0x20, 0x09, 0x0D, 0x0A) and s3 in (0x20, 0x09, 0x0D, 0x0A, 0)
+    pre: 65 <= n0 <= 122 and (n0 <= 90 or n0 >= 97)
+    pre: n1 in (45, 46, 95) or 48 <= n1 <= 57 or 65 <= n1 <= 90 or 97 <= n1 <= 122
     post: _
     """
-    import traceback
     try:
-        r = h.check(0, 0, a)
+        return h.xml_decl(s1, s3, n0, n1)
     except BaseException as e:
         with NoTracing():
-            print('EXC', traceback.format_exc()[-1800:])
+            import traceback
+            CNT['ABORT %s %s' % (type(e).__name__, ''.join(traceback.format_tb(e.__traceback__)[-3:])[-600:])] += 1
         raise
-    if not r:
-        with NoTracing():
-            print('EXPL', deep_realize(h.explain(h.CFG, 0, 0, a)))
-    return r
+
+import traceback, collections
+from crosshair import statespace as SS
+CNT = collections.Counter()
+_of = SS.StateSpace.find_model_value
+def _f(self, expr, *a, **k):
+    with NoTracing():
+        st = traceback.extract_stack()[-12:-1]
+        CNT['FMV ' + str(expr)[:60] + ' @ ' + ' < '.join('%s:%d' % (f.name, f.lineno) for f in reversed(st))[:500]] += 1
+    return _of(self, expr, *a, **k)
+SS.StateSpace.find_model_value = _f
+import os
+_oe = os._exit
+def _exit(c):
+    with open('/tmp/dbg.log','a') as f:
+        for k, v in CNT.most_common(12): f.write('%d  %s\n' % (v, k))
+    _oe(c)
+os._exit = _exit
